@@ -32,6 +32,7 @@ import sys
 
 sys.path.insert(0, os.path.dirname(os.path.dirname(os.path.abspath(__file__))))
 from sa import core, pyfacts as pf, cfg as cfgm, batch, effects, ksrules as ks  # noqa: E402
+from sa import unroll  # noqa: E402
 from sa.selftest import Mutant  # noqa: E402
 
 PROP = "C09"
@@ -1379,6 +1380,16 @@ def rule_memo(chk):
 
 # ----------------------------------------------------------------------------
 def analyse(chk):
+    # spin loops (`for s in range(2)`, comprehensions over the two spins) are analysed as their two iterations
+    orig_tree = chk.tree
+    chk.tree = unroll.view(orig_tree)
+    try:
+        _analyse_rules(chk)
+    finally:
+        chk.tree = orig_tree
+
+
+def _analyse_rules(chk):
     chk.rule("batch-index", "batch-axis subscripts are enclosing batch induction variables / full slices / guarded literals")
     chk.rule("cache-typestate", "generator consume is preceded by its produce in the same batch iteration and spin slot")
     chk.rule("hidden-write", "API entry points write only output buffers (alias + effect summaries)")
